@@ -158,7 +158,8 @@ theorem C08_list_inputs_every_template_path (a : Args) (es : List Entry) (tree :
   · intro fs ht f hf hj hl
     apply h1 hon
     simp only [typeTemplates, ht, List.mem_filter]
-    exact ⟨hf, by simp [hj, hl]⟩
+    refine ⟨hf, ?_⟩
+    rw [hl]; simpa using hj
   · intro ht n hn hj
     apply h1 hon
     simp only [typeTemplates, ht, typeLoaderFiles, List.mem_filter, List.mem_map]
@@ -321,9 +322,11 @@ example :
 
 /-- A template that is itself a symbolic link is listed (as its target); one below a linked sub-directory
 (KNOWN FINDING template-in-symlinked-dir) is rendered but not listed. -/
+def wLinkedDir : List TemplateFile :=
+  wTreeDir ++ [⟨"license.j2", "/shared/license.j2", false⟩, ⟨"linked/part.j2", "/elsewhere/part.j2", true⟩]
+
 example :
-    (run .listInputs { wArgs with genSupport := .never, templates := some
-        (wTreeDir ++ [⟨"license.j2", "/shared/license.j2", false⟩, ⟨"linked/part.j2", "/elsewhere/part.j2", true⟩]) } wEntries).inputs =
+    (run .listInputs { wArgs with genSupport := .never, templates := some wLinkedDir } wEntries).inputs =
       ["/t/Any.j2", "/t/header.j2", "/t/parts/header.j2", "/t/parts/deep/header.j2", "/shared/license.j2", "/ns/app/Use.1.0.dsdl"] := by
   decide
 
